@@ -37,6 +37,7 @@ type Contract struct {
 	Steps      map[int][]Clause  // loop ordinal -> per-iteration clauses (old() = state at the start of the iteration)
 	LoopMods   map[int][]string
 	Guards     []guardSpec
+	Bumps      []Bump   // ghost counters increased at every call (definition of the ghost, not an obligation)
 	Emits      []Clause // ghost events appended to the trace, in order (assumed contracts of hook interfaces)
 	File       string
 	Line       int
@@ -73,7 +74,7 @@ func NewContractSet() *ContractSet {
 var labelRe = regexp.MustCompile(`^(\w+)\[([^\]]+)\]\s*(.*)$`)
 
 var clauseKinds = map[string]bool{"requires": true, "ensures": true, "invariant": true, "nopanic": true,
-	"modifies": true, "flag": true, "before": true, "emits": true, "step": true, "hyp": true, "goal": true, "cover": true, "loopmodifies": true}
+	"modifies": true, "flag": true, "before": true, "emits": true, "bumps": true, "step": true, "hyp": true, "goal": true, "cover": true, "loopmodifies": true}
 
 // LoadContractFile parses one contract file; pkgPath is the import path its designators are relative to
 // ("" for library files that use fully qualified designators).
@@ -142,6 +143,18 @@ func (cs *ContractSet) LoadContractFile(path, pkgPath string) error {
 			} else {
 				cur.Flags[strings.TrimSpace(p.text)] = "true"
 			}
+			return nil
+		case "bumps":
+			// bumps <ghost counter> by <expr>
+			i := strings.Index(p.text, " by ")
+			if i < 0 {
+				return fmt.Errorf("%s:%d: bumps clause needs 'by'", path, p.line)
+			}
+			e, err := ParseSpecExpr(p.text[i+4:])
+			if err != nil {
+				return fmt.Errorf("%s:%d: %v", path, p.line, err)
+			}
+			cur.Bumps = append(cur.Bumps, Bump{Name: strings.TrimSpace(p.text[:i]), By: Clause{Kind: "bumps", Expr: e, Src: p.text[i+4:], File: path, Line: p.line}})
 			return nil
 		case "before":
 			// before[label] <callee designator> requires <expr>
@@ -466,4 +479,10 @@ func (cs *ContractSet) LoadLibContracts(dir string) error {
 		}
 	}
 	return nil
+}
+
+// Bump is one `bumps <name> by <expr>` clause.
+type Bump struct {
+	Name string
+	By   Clause
 }
